@@ -166,11 +166,16 @@ func after(obj, name string, f func(ctx context.Context) error) (afterCall, *vru
 func run(s scenario) vrun.Result {
 	w := world.New()
 	var holdConnect, holdResume, holdReplies atomic.Bool
+	var heldMu sync.Mutex
+	var heldConnects []func() // connect requests whose response is withheld until after Close
 	holdReplies.Store(true)
 	w.B.OnMsg = func(lc *broker.LinkCtx, m message.Message, unrel bool) bool {
 		switch t := m.(type) {
 		case *message.ConnectRequest:
 			if lc.L.ID > 1 && holdConnect.Load() {
+				heldMu.Lock()
+				heldConnects = append(heldConnects, func() { lc.Default(m, unrel) })
+				heldMu.Unlock()
 				return true
 			}
 		case *message.UpstreamResumeRequest, *message.DownstreamResumeRequest:
@@ -594,10 +599,29 @@ func run(s scenario) vrun.Result {
 	pwg.Wait()
 	holdConnect.Store(false)
 	holdResume.Store(false)
+	// the broker now answers the connect requests it sat on: a dial that was under way when Close arrived completes
+	// AFTER Close - the client must give that connection up at once
+	heldMu.Lock()
+	hc := heldConnects
+	heldConnects = nil
+	heldMu.Unlock()
+	for _, f := range hc {
+		f()
+	}
 	time.Sleep(30 * time.Second)
 	synctest.Wait()
 	dialsAfter := w.Net.Dials()
 	ledger := w.B.Ledger()
+	// "never reconnects": 30 virtual seconds after Close returned the client holds no transport open any more - also
+	// not one whose dial was under way when Close arrived
+	for _, l := range w.Net.Links() {
+		select {
+		case <-l.ClosedCh():
+		default:
+			return vrun.Violation("a transport of the closed connection is still open on the client side 30 virtual seconds after Close returned", "transport-left-open-after-close:"+s.Outage,
+				map[string]any{"link": l.ID, "links": len(w.Net.Links()), "calls": calls})
+		}
+	}
 	w.Close()
 	time.Sleep(5 * time.Minute)
 	synctest.Wait()
